@@ -138,6 +138,7 @@ func startMOSN(dir string, scs []*scenario, extra []v2.Listener, extraRouters []
 	mosn.DefaultPreStartStage(m)
 	go m.Start()
 	mu.m = m
+	mu.handler = nil
 	// wait until every listener accepts (they are started one goroutine each)
 	for _, l := range listeners {
 		okc := false
